@@ -467,6 +467,24 @@ class UserSecurityModel(
             # See https://tools.ietf.org/html/rfc3414#section-3.1
             raise UnknownUser(f"Unknown user {security_name!r}")
 
+        # Only Report PDUs may legitimately arrive with a lower security-level
+        # than the one of the request (rfc3414#section-3.2). Anything else
+        # that is not protected as the credentials demand is either forged or
+        # has been downgraded on its way.
+        is_report = isinstance(message.scoped_pdu, ScopedPDU) and isinstance(
+            message.scoped_pdu.data, Report
+        )
+        if not is_report:
+            if credentials.auth is not None and not message.header.flags.auth:
+                raise AuthenticationError(
+                    "Received an unauthenticated message for a user with "
+                    "authentication!"
+                )
+            if credentials.priv is not None and not message.header.flags.priv:
+                raise DecryptionError(
+                    "Received an unencrypted message for a user with privacy!"
+                )
+
         verify_authentication(message, credentials, security_params)
         message = decrypt_message(message, credentials)
         validate_usm_message(message)
@@ -585,6 +603,10 @@ def validate_usm_message(message: PlainMessage) -> None:
         if varbind.oid in errors:
             msg = errors[varbind.oid]
             raise SnmpError(f"Error response from remote device: {msg}")
+    # A report is never the answer to a request. It must not be handed to
+    # the caller as if it were data.
+    reported = ", ".join(str(varbind.oid) for varbind in pdu.varbinds)
+    raise SnmpError(f"Unexpected report from remote device: {reported}")
 
 
 def create() -> UserSecurityModel:
